@@ -208,7 +208,7 @@ def run(ctx):
         post = "".join(rng.choice(["a", "b", "|b", "c", "*", ")", ""]) for _ in range(rng.randint(0, 2)))
         more.append(pre + rng.choice(["a", "(ab)", "(a|b)", ".", ""]) + q + post)
     more += ["", " ", "\t", "  \t ", "( )", "a{3,1}", "a{1,1}", "\n", "a\nb", "a\r", "a{2,1}|", "(a{2,1}", "|a{2,1}", "a{2,10}", "a{10,9}", "(ab){9,12}",
-             "(ab){11,2}", "a{10,10}", "a{9,10}", "a{10,2}", "a{02,3}", "a{3,02}", "a{10,}", "a{,10}"]
+             "(ab){11,2}", "a{10,10}", "a{9,10}", "a{10,2}", "a{02,3}", "a{3,02}", "a{10,}", "a{,10}", "a{ ,2}", "a{1, }", "a{ , }", "a{\t,2}", "a{ 0 , 2 }", "(ab){ ,1}b", "a{ 2, }*"]
     more = list(dict.fromkeys(more))
     for i in range(0, len(more), 400):
         check_strings(ctx, more[i:i + 400], "random")
